@@ -353,9 +353,13 @@ func runCase(c *caseT) string {
 	if f == nil {
 		return b.String()
 	}
+	docs := make([]interface{}, len(c.Docs))
+	befores := make([]string, len(c.Docs))
+	reported := make([]bool, len(c.Docs))
 	for i := range c.Docs {
 		doc := buildDoc(c.Docs[i])
 		before := render(doc)
+		docs[i], befores[i] = doc, before
 		rec.take()
 		res, eobs := evalObs(f, doc)
 		fmt.Fprintf(&b, "\tR%d=%s", i, eobs)
@@ -363,9 +367,23 @@ func runCase(c *caseT) string {
 		after := render(doc)
 		if after != before {
 			fmt.Fprintf(&b, "\tM%d=%s", i, after)
+			reported[i] = true
 		}
 		if c.Acc && c.Mode == "loc" && res != nil {
 			fmt.Fprintf(&b, "\tL%d=%s", i, locations(c, i, len(res), rec))
+		}
+	}
+	// the documents must still be what they were after later calls and after unrelated retrievals that
+	// recycle the pooled buffers (a result buffer aliasing a caller's array would show here)
+	if len(docs) > 0 && c.Mode == "eval" {
+		jsonpath.Retrieve("$..*", []interface{}{map[string]interface{}{"x": []interface{}{"p", "q", "r"}}, "y", 9.0})
+		jsonpath.Retrieve("$.name", map[string]interface{}{"name": "n"})
+		for i := range docs {
+			if !reported[i] {
+				if late := render(docs[i]); late != befores[i] {
+					fmt.Fprintf(&b, "\tM%d=late:%s", i, late)
+				}
+			}
 		}
 	}
 	return b.String()
